@@ -80,6 +80,8 @@ pub struct Reader<const H: usize> {
     fallback_buf: [u8; FALLBACK_BUF_SIZE],
     // Sequential read cache
     read_ahead_buf: ReadAheadBuf,
+    // Truncation count of the segment when the read-ahead buffer was last known valid
+    read_ahead_truncations: u64,
     flushed_offset: FlushedOffset,
     // Decompression buffer (reused across reads to avoid allocations)
     decompress_buf: Vec<u8>,
@@ -118,6 +120,7 @@ impl<const H: usize> Reader<H> {
             optimistic_buf: [0u8; RECORD_HEAD_SIZE + OPTIMISTIC_DATA_SIZE],
             fallback_buf,
             read_ahead_buf: ReadAheadBuf::new(),
+            read_ahead_truncations: flushed_offset.truncations(),
             flushed_offset,
             decompress_buf: Vec::new(),
         };
@@ -134,6 +137,7 @@ impl<const H: usize> Reader<H> {
             optimistic_buf: [0u8; RECORD_HEAD_SIZE + OPTIMISTIC_DATA_SIZE],
             fallback_buf: self.fallback_buf,
             read_ahead_buf: ReadAheadBuf::new(),
+            read_ahead_truncations: self.flushed_offset.truncations(),
             flushed_offset: self.flushed_offset.clone(),
             decompress_buf: Vec::new(),
         })
@@ -320,6 +324,14 @@ impl<const H: usize> Reader<H> {
         offset: u64,
         flushed_offset: u64,
     ) -> Result<Record<'_, H>, ReadError> {
+        // The segment was truncated since the buffer was filled: what it holds may have been
+        // overwritten by later appends
+        let truncations = self.flushed_offset.truncations();
+        if truncations != self.read_ahead_truncations {
+            self.read_ahead_buf.invalidate();
+            self.read_ahead_truncations = truncations;
+        }
+
         let record_header_buf =
             self.read_ahead_buf
                 .read(&self.file, offset, RECORD_HEAD_SIZE, flushed_offset)?;
